@@ -25,9 +25,9 @@ echo "demo pristine rc=$RC0: $(tail -1 "$WT/demo.pristine.log")"
 echo "demo patched  rc=$RC1: $(tail -1 "$WT/demo.patched.log")"
 TESTS=skipped
 if [ "$MODE" = "--full" ]; then
-  TESTS=$( /venv/bin/python -m pytest -q -p no:cacheprovider --timeout=900 --continue-on-collection-errors -x 2>&1 | tail -1 )
+  TESTS=$( /venv/bin/python -m pytest -q -p no:cacheprovider --timeout=900 --continue-on-collection-errors 2>&1 | tail -3 | tr "\n" " " )
 elif [ "$MODE" = "--tests" ]; then
-  TESTS=$( /venv/bin/python -m pytest -q -p no:cacheprovider --timeout=900 $ARG 2>&1 | tail -1 )
+  TESTS=$( /venv/bin/python -m pytest -q -p no:cacheprovider --timeout=900 $ARG 2>&1 | tail -3 | tr "\n" " " )
 fi
 echo "tests (patched): $TESTS"
 OK=1; [ "$RC0" = "0" ] || OK=0; [ "$RC1" != "0" ] || OK=0
